@@ -100,7 +100,7 @@ def shard_text(cases):
 
 
 # ---- the real pipeline on model spectra ------------------------------------------------------------------------------------
-def pipeline_case(rng, test, adm, addC, addL, tier, fixed=None):
+def pipeline_case(rng, test, adm, addC, addL, tier, fixed=None, negative=()):
     import numpy as np
     import pyimpspec
     from pyimpspec import DataSet, parse_cdc
@@ -113,7 +113,7 @@ def pipeline_case(rng, test, adm, addC, addL, tier, fixed=None):
         if test == "cnls":
             num_RC = min(num_RC, 6)
         logF = rng.uniform(-1, 1)
-        circuit, taus = kk.gen_model_circuit(adm, addC, addL, num_RC, logF, f, rng)
+        circuit, taus = kk.gen_model_circuit(adm, addC, addL, num_RC, logF, f, rng, negative=negative)
     else:
         from pyimpspec.analysis.kramers_kronig.utility import _generate_time_constants
         f = np.logspace(math.log10(fixed["f_max"]), math.log10(fixed["f_min"]), fixed["points"])
@@ -202,12 +202,19 @@ def run(rep, tier, seed, tr_errors):
         if f_.get("property") == PROP and "reproducer" in f_:
             r_ = f_["reproducer"]
             plan.append((r_["test"], r_["admittance"], r_["add_capacitance"], r_["add_inductance"], r_))
+    # sign patterns: every option combination is run with a negative series/parallel resistance and with negative C/L as well
+    NEG = [(), ("Resistor",), ("Capacitor", "Inductor"), ("Resistor", "Inductor"), ("KramersKronigRC", "KramersKronigAdmittanceRC")]
     for test, adm, addC, addL in combos:
-        for _ in range(reps if test != "cnls" else max(1, reps // 4)):
-            plan.append((test, adm, addC, addL, None))
+        for r_ in range(reps if test != "cnls" else max(1, reps // 4)):
+            plan.append((test, adm, addC, addL, NEG[r_ % len(NEG)]))
     for test, adm, addC, addL, fixed in plan:
+        negative = fixed if isinstance(fixed, tuple) else ()
+        fixed = fixed if isinstance(fixed, dict) else None
+        for attempt in range(4):
+            info = pipeline_case(rng, test, adm, addC, addL, tier, fixed, negative)
+            if fixed is not None or "raised" in info or info["threshold"] <= 1e-3:
+                break       # otherwise: ill-conditioned grid, draw another one
         if True:
-            info = pipeline_case(rng, test, adm, addC, addL, tier, fixed)
             rep.evaluations += 1
             key = "%s/%s" % (test, "Y" if adm else "Z")
             st = stats.setdefault(key, {"runs": 0, "judged": 0, "ill_conditioned": 0, "raised": 0})
